@@ -118,7 +118,8 @@ impl Adapter for MemoryAdapter {
         rule.insert(0, ptype.to_owned());
         rule.insert(0, sec.to_owned());
 
-        Ok(self.policy.insert(rule))
+        // `insert` would move an existing rule to the back
+        Ok(self.policy.replace(rule).is_none())
     }
 
     async fn add_policies(
@@ -143,7 +144,9 @@ impl Adapter for MemoryAdapter {
                 return Ok(all_added);
             }
         }
-        self.policy.extend(rules);
+        for rule in rules {
+            self.policy.replace(rule);
+        }
 
         Ok(all_added)
     }
